@@ -278,6 +278,32 @@ def subst(t, mapping):
     return res
 
 
+def degrade(t):
+    """The term with every guarded or conditional choice read as a plain join (gphi / ifexp -> phi): the common form in
+    which a term of a guarded builder can be compared with a term of a plain one."""
+    if not isinstance(t, tuple) or not t:
+        return t
+    if isinstance(t[0], str):
+        if t[0] == "gphi":
+            return phi(degrade(v) for _k, v in t[1])
+        if t[0] == "ifexp":
+            return phi([degrade(t[2]), degrade(t[3])])
+        if t[0] in ("const", "global", "param", "self", "unknown", "func", "local"):
+            return t
+    out = []
+    for x in t:
+        if isinstance(x, tuple):
+            out.append(degrade(x))
+        elif isinstance(x, frozenset):
+            out.append(frozenset(degrade(y) for y in x))
+        else:
+            out.append(x)
+    res = tuple(out)
+    if res and isinstance(res[0], str) and res[0] in ("sub", "attr", "call", "item", "phi", "col", "cmp"):
+        res = recanon(res)
+    return res
+
+
 def recanon(t):
     tag = t[0]
     if tag == "sub":
@@ -1046,6 +1072,7 @@ class TermBuilder:
             else:
                 args.append(T(a))
         kws = []
+        star_choice = None
         for k in e.keywords:
             if k.arg is None:
                 v = T(k.value)
@@ -1054,11 +1081,39 @@ class TermBuilder:
                 if v[0] == "dict" and all(kk[0] == "const" and isinstance(kk[1], str) and kk[1] != "**" for kk, _ in v[1]) \
                         and (isinstance(k.value, ast.Dict) or self._is_forwarded_kwargs(k.value)):
                     kws.extend((kk[1], vv) for kk, vv in v[1])
+                elif v[0] in ("gphi", "phi", "ifexp") and star_choice is None and all(
+                        a_[0] == "dict" and all(kk[0] == "const" and isinstance(kk[1], str) and kk[1] != "**" for kk, _ in a_[1]) for _l, a_ in top_alts(v)) \
+                        and not self._mutated_local(k.value):
+                    # f(x, **kw) with kw chosen between dict displays: the call is chosen between the corresponding calls
+                    star_choice = (len(kws), v)
+                    kws.append(("**", v))
                 else:
                     kws.append(("**", v))
             else:
                 kws.append((k.arg, T(k.value)))
-        t = canon_call(func, tuple(args), tuple(kws))
+        if star_choice is not None:
+            pos_, v_ = star_choice
+            outs = []
+            for lits, d_ in top_alts(v_):
+                kk = kws[:pos_] + [(x[0][1], x[1]) for x in d_[1]] + kws[pos_ + 1:]
+                outs.append((tuple(lits), self._finish_call(canon_call(func, tuple(args), tuple(kk)))))
+            if all(l for l, _ in outs) and len({l for l, _ in outs}) == len(outs):
+                return ("gphi", frozenset(outs))
+            return phi(c for _l, c in outs)
+        return self._finish_call(canon_call(func, tuple(args), tuple(kws)))
+
+    def _mutated_local(self, node):
+        """node is a local name whose object is filled by later stores (its term is then only the initial display)."""
+        if not isinstance(node, ast.Name):
+            return False
+        for n in _own_walk(self.fn.node):
+            if isinstance(n, ast.Subscript) and isinstance(n.value, ast.Name) and n.value.id == node.id and not isinstance(n.ctx, ast.Load):
+                return True
+            if isinstance(n, ast.Attribute) and isinstance(n.value, ast.Name) and n.value.id == node.id and n.attr in ("update", "pop", "setdefault", "clear", "popitem"):
+                return True
+        return False
+
+    def _finish_call(self, t):
         if t[0] != "call":
             return t
         callee, recv = self.resolve_callee(t[1])
@@ -1169,8 +1224,23 @@ class TermBuilder:
             if len(ts) > 1 and all(x[0] == "tuple" and len(x[1]) == len(ts[0][1]) for x in ts):
                 # tuple results are joined slot by slot
                 t = ("tuple", tuple(phi(x[1][k] for x in ts) for k in range(len(ts[0][1]))))
+            elif self.guarded and len(ts) > 1:
+                # several returns of the helper: alternatives keyed by the helper's own path conditions (over the actual arguments)
+                from .guards import PathConditions
+                hp = PathConditions(callee, sub)
+                keys = [tuple(hp.of(r_)) for r_ in rets]
+                common = set(keys[0])
+                for k_ in keys[1:]:
+                    common &= set(k_)
+                keys = [tuple(l for l in k_ if l not in common) for k_ in keys]
+                if all(keys) and len(set(keys)) == len(keys):
+                    t = ("gphi", frozenset(zip(keys, ts)))
+                else:
+                    t = phi(ts)
             else:
                 t = phi(ts)
+        if any(s_[0] == "func" and s_[1].startswith(callee.qualname + ".") for s_ in walk(t)):
+            return None  # the helper returns a closure over its own parameters: the call is kept, it carries the bindings
         # a cycle the callee itself introduces makes the result useless; cycles already inside the arguments are the caller's
         given_cyc = {s_ for a_ in list(args) + [v_ for _k, v_ in kws] + ([recv] if recv is not None else []) for s_ in walk(a_) if s_[0] == "cyc"}
         if any(s_[0] == "cyc" and s_ not in given_cyc for s_ in walk(t)):
